@@ -1523,7 +1523,8 @@ class EBPF(EBPFBase):
             yield
             for tmp, i in save:
                 self.append(Opcode.MOV+Opcode.LONG+Opcode.REG, i, tmp, 0, 0)
-            self.owners -= registers
+            # the restored registers keep their value, the others are free
+            self.owners = (self.owners - registers) | (oldowners & registers)
 
     @contextmanager
     def get_stack(self, size):
